@@ -4,6 +4,12 @@ import json
 
 # id -> (technique, level text, level_note, design_ref)
 CLAIMED = {
+ "C05": ("exhaustive choice-tree enumeration (E1): all ordered pairs of voxels of each world and all pairs of short lists through both overlap implementations vs the ancestor-relation reference",
+         "All ordered pairs of the 150-300 voxels of each world (root classes incl. f=-1|0 twin, top and bottom index, 2 levels of descendants per axis, parents) and all pairs of lists of length 0..3 are decided against ref.Overlap, for the extended checks and for the radix-tree checks inside the documented altitude range incl. zooms > 25.",
+         "Trusted: ref.Overlap. Voxels outside the worlds and lists longer than 3 are not covered.", "4/C05"),
+ "C08": ("exhaustive choice-tree enumeration (E1) of IDs x stencils and short lists x layer counts vs set comprehension over the modular-shift model",
+         "Full product of zooms x index classes (grid edges) x stencil, and list shapes x layer counts 0..4: result set, multiset size, duplicate freedom, exact count and self-exclusion where the stencil fits, symmetry of the relation.",
+         "Trusted: ref.Vox.Shift. Lists longer than 3 and layer counts above 4 are not covered.", "4/C08"),
  "C03": ("explicit-state BFS (E2) over the VoxelSets operation machine with lock-step dyadic-box reference model + exhaustive choice-tree enumeration (E1) of the per-axis helpers",
          "Every zoom-change transition of the machine (all states reachable within the depth bound from each world, 25 target zoom pairs each) is compared with an integer dyadic-box model through both APIs; the exported per-axis helpers are enumerated over all zoom pairs x index classes.",
          "Trusted: ref.ChangeZoom (shifts). Bounds: BFS depth 3 quick / 4 thorough, state size <= 160, output <= 2048 IDs per call; indices outside alphabet classes not covered.", "4/C03"),
